@@ -76,13 +76,14 @@ def verify_function(eng: Exec, c: Contract, recheck_cvc5=False, model_hook=None)
             if terminal:
                 res.terminal_paths += 1
             stack.extend(st.alternatives)
+            inc = solve.PathSolver(st.facts)
             for ob in st.obligations:
                 ob.path_id = pid
                 if ob.kind == "guarded-by":
                     ob.status = "discharged" if z3.is_true(ob.goal) else "failed"
                     ob.backend = "ghost-lockset"
                 else:
-                    solve.discharge(ob, recheck_cvc5=recheck_cvc5)
+                    inc.discharge(ob, recheck_cvc5=recheck_cvc5)
                 if ob.status == "failed" and model_hook is not None:
                     try:
                         model_hook(eng, st, fi, c, ob)
